@@ -2,7 +2,7 @@
 # dev aid: apply a seeded patch to /repo, run one property's quick check, undo the patch.
 # usage: tools/try_patch.sh <patch.diff> <ID> [tier]
 set -u
-patch=$1; id=$2; tier=${3:-quick}
+patch=$(realpath "$1"); id=$2; tier=${3:-quick}
 cd /repo || exit 2
 if ! git diff --quiet; then echo "repo dirty"; exit 2; fi
 git apply "$patch" || { echo "patch does not apply"; exit 2; }
